@@ -393,6 +393,7 @@ theorem ext_validateMember (input : DataType) (isEnum : Bool) (tps : List TypePa
       apply ext_validateDedicatedMemberAttrs
       apply ext_validateDedicatedMemberAttrs
       apply ext_parentTypePass
+      apply ext_validateParentAttrs
       apply ext_barkAtMemberAttr
       exact hm
     · apply ext_validateDedicatedMemberAttrs
